@@ -98,17 +98,105 @@ def pipe(binary_args, lines, timeout=600, env=None):
     return _pipe1(binary_args, lines, timeout, env)
 
 
+STALL = 300      # seconds without a new answer line before the implementation harness counts as hung on the next case
+
+
+def _run_once(binary_args, lines, timeout, env, stall=None):
+    """Run the tool on `lines`; return (rc, answered_lines, stderr_tail). rc None = killed by us (hang / timeout)."""
+    import select
+    import threading
+    p = subprocess.Popen(binary_args, stdin=subprocess.PIPE, stdout=subprocess.PIPE, stderr=subprocess.PIPE,
+                         env=env, preexec_fn=lambda: _unlimit_stack())
+    data = ("\n".join(lines) + "\n" if lines else "").encode("utf-8")
+
+    def feed():
+        try:
+            p.stdin.write(data)
+            p.stdin.close()
+        except Exception:
+            pass
+    err = []
+
+    def drain():
+        try:
+            err.append(p.stderr.read())
+        except Exception:
+            pass
+    threading.Thread(target=feed, daemon=True).start()
+    threading.Thread(target=drain, daemon=True).start()
+    buf = bytearray()
+    t0 = time.time()
+    last = t0
+    fd = p.stdout.fileno()
+    killed = False
+    while True:
+        r, _, _ = select.select([fd], [], [], 5)
+        now = time.time()
+        if r:
+            chunk = os.read(fd, 1 << 20)
+            if not chunk:
+                break
+            buf += chunk
+            last = now
+        elif (stall is not None and now - last > stall) or now - t0 > timeout:
+            p.kill()
+            killed = True
+            break
+    p.wait()
+    time.sleep(0.05)
+    out = buf.decode("utf-8", "replace").split("\n")
+    tail = out.pop() if out else ""
+    if tail and not killed and p.returncode == 0:
+        out.append(tail)
+    e = (err[0] if err else b"").decode("utf-8", "replace")[-1500:]
+    return (None if killed else p.returncode), out, e
+
+
+def _died_line(binary_args, line, why):
+    """The answer line for a case that killed the implementation harness (abort, stack overflow, hang): the same shape
+    as a caught panic in that mode, so that every consumer classifies it as a panic (C05: 'never panics, aborts or loops')."""
+    mode = binary_args[1]
+    msg = hexs("process died: " + why)
+    f = line.split()
+    if mode == "fmt":
+        return "panic " + msg
+    if mode == "full":
+        tree = _pipe1([binary_args[0], "tree"], [f[3]])[0]
+        return "%s\tpanic %s" % (tree, msg)
+    if mode == "oracle":
+        pre = _pipe1([binary_args[0], "oraclefor"], [line + " -"])[0]
+        pre = pre.split("\tcount=")[0]
+        return pre + "\tcount=0\tclass=panic\tpanic=%s\tc05=0" % msg
+    if mode == "range":
+        return "class=panic\tpanic=%s\tc13=0" % msg
+    return None
+
+
 def _pipe1(binary_args, lines, timeout=600, env=None):
-    data = "\n".join(lines) + "\n" if lines else ""
-    p = subprocess.run(binary_args, input=data, stdout=subprocess.PIPE, stderr=subprocess.PIPE,
-                       text=True, timeout=timeout, env=env,
-                       preexec_fn=lambda: _unlimit_stack())
-    if p.returncode != 0:
-        raise RuntimeError("%s failed rc=%d: %s" % (binary_args, p.returncode, p.stderr[-2000:]))
-    out = p.stdout.split("\n")
-    if out and out[-1] == "":
-        out.pop()
-    return out
+    """One process over `lines`. The implementation harness (tyv) answers line by line and flushes each answer, so when a
+    case kills it (abort on allocation failure, stack overflow, a hang) the killer is the first unanswered line: it gets
+    a synthetic panic answer and the rest is run in a fresh process."""
+    recover = os.path.basename(binary_args[0]) == "tyv" and len(binary_args) >= 2
+    out = []
+    rest = list(lines)
+    deaths = 0
+    while True:
+        rc, ans, err = _run_once(binary_args, rest, timeout, env, stall=STALL if recover else None)
+        if rc == 0:
+            out.extend(ans)
+            return out
+        if not recover or len(ans) >= len(rest) or deaths >= 50:
+            raise RuntimeError("%s failed rc=%s: %s" % (binary_args, rc, err))
+        why = ("hung (no answer for %d s)" % STALL) if rc is None else ("rc=%d %s" % (rc, err.strip().split("\n")[0][:200]))
+        synth = _died_line(binary_args, rest[len(ans)], why)
+        if synth is None:
+            raise RuntimeError("%s failed rc=%s: %s" % (binary_args, rc, err))
+        out.extend(ans)
+        out.append(synth)
+        rest = rest[len(ans) + 1:]
+        deaths += 1
+        if not rest:
+            return out
 
 
 def _unlimit_stack():
